@@ -27,3 +27,10 @@ for prop, rs in rows.items():
     det = "; ".join(f"{d.split('_')[1]}: {by}" for d, o, by in rs)
     print(f"| {prop} | {len(rs)} | {c['caught']} | {c['declined']} | {c['MISSED']} | {det} |")
 print(f"| **all** | {sum(tot.values())} | {tot['caught']} | {tot['declined']} | {tot['MISSED']} | |")
+
+if __name__ == "__main__" and "--update-design" in __import__("sys").argv:
+    import io, contextlib, subprocess, sys
+    out = subprocess.run([sys.executable, __file__], capture_output=True, text=True).stdout
+    p = os.path.join(V, "DESIGN.md"); s = open(p).read()
+    a = s.index("<!-- SEEDS:BEGIN -->") + len("<!-- SEEDS:BEGIN -->"); b = s.index("<!-- SEEDS:END -->")
+    open(p, "w").write(s[:a] + "\n" + out + s[b:])
